@@ -87,6 +87,8 @@ impl Runner {
                     self.lin.init(&self.st, self.ds.version().version);
                     self.seen_col_rewrite = false;
                     self.seen_defer_remap = false;
+                    self.eager_after_defer = false;
+                    self.rewritten_cols.clear();
                     self.res.script.push(format!("{}: drop all objects and re-create the table at the same URI (same session)", self.step));
                     self.res.kinds.push("recreate".into());
                     self.res.probe("recreated-at-same-uri");
@@ -277,7 +279,15 @@ impl Runner {
                 None => self.rng.chance(0.4),
             };
             let use_index = self.rng.chance(0.7);
-            let filter = if self.rng.chance(0.4) { Some(gen_pred(&mut self.rng, &self.st.cols.iter().filter(|c| c.name == "k" || c.name == "v").cloned().collect::<Vec<_>>(), self.gen.next_k, 0)) } else { None };
+            let mut filter = if self.rng.chance(0.4) { Some(gen_pred(&mut self.rng, &self.st.cols.iter().filter(|c| c.name == "k" || c.name == "v").cloned().collect::<Vec<_>>(), self.gen.next_k, 0)) } else { None };
+            // known finding KF-21 (an inverted BETWEEN as pre-filter of a vector query hits a DataFusion
+            // internal error): generate that shape rarely
+            if let Some(Pred::Between(_, Lit::I(a), Lit::I(b))) = &filter {
+                if a > b && self.rng.chance(0.9) {
+                    filter = None;
+                }
+            }
+            let stable_tag = if self.ctx.stable_row_ids { ":stable-row-ids" } else { "" };
             let mut sc = self.ds.scan();
             if sc.nearest("vec", &Float32Array::from(q.clone()), k).is_err() {
                 continue;
@@ -303,7 +313,8 @@ impl Runner {
             let batches = match res {
                 Ok(b) => b,
                 Err(e) => {
-                    self.res.violate("C22", "O-knn", &format!("knn-error:{}", err_class(&e.to_string())), self.step, format!("{} failed: {}", what, e));
+                    let inv = matches!(&filter, Some(Pred::Between(_, Lit::I(a), Lit::I(b))) if a > b);
+                    self.res.violate("C22", "O-knn", &format!("knn-error:{}{}{}", err_class(&e.to_string()), if inv { ":inverted-between-prefilter" } else { "" }, if use_index && idx_kind.is_some() { stable_tag } else { "" }), self.step, format!("{} failed: {}", what, e));
                     continue;
                 }
             };
@@ -346,7 +357,7 @@ impl Runner {
                 let d = r[di].as_f64().unwrap_or(f64::NAN);
                 match by_img.get(&img) {
                     None => {
-                        self.res.violate("C22", "O-knn", "knn-returned-deleted-or-filtered-row", self.step, format!("{} returned image {} which is deleted, filtered out or has no vector", what, img));
+                        self.res.violate("C22", "O-knn", &format!("knn-returned-deleted-or-filtered-row{}", if use_index && idx_kind.is_some() { stable_tag } else { "" }), self.step, format!("{} returned image {} which is deleted, filtered out or has no vector", what, img));
                         bad = true;
                     }
                     Some(t) => {
@@ -367,14 +378,14 @@ impl Runner {
             }
             let expect_n = k.min(truth.len());
             if rows.len() != expect_n {
-                self.res.violate("C22", "O-knn", &format!("knn-count:{}{}", if use_index && idx_kind.is_some() { "indexed" } else { "flat" }, if filter.is_some() { ":prefilter" } else { "" }), self.step, format!("{} returned {} rows, expected min(k, matches) = {}", what, rows.len(), expect_n));
+                self.res.violate("C22", "O-knn", &format!("knn-count:{}{}{}", if use_index && idx_kind.is_some() { "indexed" } else { "flat" }, if filter.is_some() { ":prefilter" } else { "" }, if use_index && idx_kind.is_some() { stable_tag } else { "" }), self.step, format!("{} returned {} rows, expected min(k, matches) = {}", what, rows.len(), expect_n));
                 continue;
             }
             if expect_n > 0 {
                 let kth_true = truth[expect_n - 1].0;
                 let kth_got = rows[expect_n - 1][di].as_f64().unwrap_or(f64::NAN);
                 if kth_got > kth_true + tol(kth_true) {
-                    self.res.violate("C22", "O-knn", &format!("knn-not-nearest:{}", if use_index && idx_kind.is_some() { "indexed" } else { "flat" }), self.step, format!("{}: k-th distance {} but the true k-th smallest is {}", what, kth_got, kth_true));
+                    self.res.violate("C22", "O-knn", &format!("knn-not-nearest:{}{}", if use_index && idx_kind.is_some() { "indexed" } else { "flat" }, if use_index && idx_kind.is_some() { stable_tag } else { "" }), self.step, format!("{}: k-th distance {} but the true k-th smallest is {}", what, kth_got, kth_true));
                 }
             }
         }
@@ -434,7 +445,7 @@ impl Runner {
             let batches = match res {
                 Ok(b) => b,
                 Err(e) => {
-                    self.res.violate("C23", "O-fts", &format!("fts-error:{}", err_class(&e.to_string())), self.step, format!("{} failed: {}", what, e));
+                    self.res.violate("C23", "O-fts", &format!("fts-error:{}{}", err_class(&e.to_string()), if self.ctx.stable_row_ids { ":stable-row-ids" } else { "" }), self.step, format!("{} failed: {}", what, e));
                     continue;
                 }
             };
@@ -448,7 +459,7 @@ impl Runner {
             };
             if got != expect {
                 let unindexed = self.res.kinds.iter().rev().take_while(|k| *k != "create_fts_index").any(|k| k == "append" || k == "merge" || k == "update");
-                self.res.violate("C23", "O-fts", &format!("fts-match-set:{}{}", ["match-or", "match-and", "phrase"][mode as usize], if unindexed { ":unindexed-tail" } else { "" }), self.step, format!("{}: returned {} docs, expected {}; only-lance {:?} only-model {:?}", what, got.len(), expect.len(), got.difference(&expect).take(4).collect::<Vec<_>>(), expect.difference(&got).take(4).collect::<Vec<_>>()));
+                self.res.violate("C23", "O-fts", &format!("fts-match-set:{}{}{}", ["match-or", "match-and", "phrase"][mode as usize], if unindexed { ":unindexed-tail" } else { "" }, if self.ctx.stable_row_ids { ":stable-row-ids" } else { "" }), self.step, format!("{}: returned {} docs, expected {}; only-lance {:?} only-model {:?}", what, got.len(), expect.len(), got.difference(&expect).take(4).collect::<Vec<_>>(), expect.difference(&got).take(4).collect::<Vec<_>>()));
                 continue;
             }
             if let Some(si) = si {
